@@ -1,0 +1,19 @@
+//go:build !verif
+
+package bbolt
+
+// Verification hooks are compiled out without the build tag "verif".
+
+type verifOp int
+
+const (
+	verifWrite verifOp = iota
+	verifFdatasync
+	verifFsync
+	verifTruncate
+	verifMmap
+)
+
+func verifIO(*DB, verifOp, int64, []byte) error { return nil }
+
+func verifAttach(*DB) {}
